@@ -287,6 +287,42 @@ func hasEmptyPiece(v reflect.Value, depth int) bool {
 	return false
 }
 
+// explainEachMember: every member of a parameter struct that did not arrive as sent differs only in white
+// space at the edges (net/http) or holds an empty piece; the class of the first such member is returned.
+func explainEachMember(a, got reflect.Value) (string, bool) {
+	for a.IsValid() && (a.Kind() == reflect.Pointer || a.Kind() == reflect.Interface) && !a.IsNil() {
+		a = a.Elem()
+	}
+	for got.IsValid() && (got.Kind() == reflect.Pointer || got.Kind() == reflect.Interface) && !got.IsNil() {
+		got = got.Elem()
+	}
+	if !a.IsValid() || !got.IsValid() || a.Kind() != reflect.Struct || a.Type() != got.Type() {
+		return "", false
+	}
+	first := ""
+	for i := 0; i < a.NumField(); i++ {
+		if !a.Type().Field(i).IsExported() {
+			continue
+		}
+		if ok, _ := valgen.Equal(a.Field(i), got.Field(i), valgen.EqOpts{NilEqualsEmpty: true}); ok {
+			continue
+		}
+		var cl string
+		switch {
+		case whitespaceOnlyDifference(a.Field(i), got.Field(i)):
+			cl = "header-value-whitespace-normalised"
+		case hasEmptyPiece(a.Field(i), 0):
+			cl = "empty-piece-in-parameter-or-header"
+		default:
+			return "", false
+		}
+		if first == "" {
+			first = cl
+		}
+	}
+	return first, first != ""
+}
+
 // emptyPieceAt: the member of the argument on the way to the place that differs (where is the path
 // valgen.Equal reports, ".P3.Value[1]: ...") holds an empty piece. An empty piece elsewhere in the call
 // explains nothing about this member.
@@ -713,6 +749,18 @@ func exchange(u *vk.Unit, p *reg.Package, m reg.Method, cm reflect.Value, args [
 				cl = "header-value-whitespace-normalised"
 			case emptyPiece && emptyPieceAt(a, where):
 				cl = "empty-piece-in-parameter-or-header"
+				if isParamsArg(a) {
+					// several parameters of one call may differ: EVERY one that does must be explained
+					if c, ok := explainEachMember(a, got); ok {
+						cl = c
+					} else {
+						cl = "silent-change"
+					}
+				}
+			case isParamsArg(a):
+				if c, ok := explainEachMember(a, got); ok {
+					cl = c
+				}
 			}
 			return vk.F(cl, "%s: handler received a different value: argument %d differs at %s (received %s)", desc(), i, where, render(st.handlerArgs[i]))
 		}
